@@ -170,6 +170,18 @@ func (w *W) typ(t *meta.Type, depth int) interface{} {
 		"description": t.Description(), "reference": t.Reference()}
 
 	var ranges, lengths []interface{}
+	for _, rs := range [][]*meta.Range{t.Range(), t.Length()} {
+		for _, r := range rs {
+			for _, e := range r.Entries {
+				for _, n := range []meta.RangeNumber{e.Min, e.Max, e.Exact} {
+					// the keywords min and max, and only they, are the open bounds
+					if n.IsMin() != (n.String() == "min") || n.IsMax() != (n.String() == "max") {
+						w.Problems = append(w.Problems, fmt.Sprintf("range-bound-flags: bound %q of %q says IsMin=%v IsMax=%v", n.String(), r.String(), n.IsMin(), n.IsMax()))
+					}
+				}
+			}
+		}
+	}
 	for _, r := range t.Range() {
 		ranges = append(ranges, M{"s": r.String(), "error-message": r.ErrorMessage(), "error-app-tag": r.ErrorAppTag(), "description": r.Description()})
 	}
